@@ -75,5 +75,14 @@ def run(rep, tier):
     total = e1run.run(rep, ['Ref', 'Str', 'Regex', 'Byte'], tier,
                       select=lambda f: f['rule'] in ('S-ref', 'S-literal', 'G0-syntax'))
     rep.floor('configurations of Ref', total.get('Ref', 0), 12)
+    # every rule invocation is a request to the driver (the only place a rule body starts): no
+    # emitted rule function or helper calls an implementation function directly (also not via
+    # `yield from`), on any route (alias rules, templates, classes, sub-grammars, spilled helpers)
+    rep.rule('C07-direct-call', 'no emitted function calls a rule implementation directly')
+    from . import C17
+    C17.rule_calls_are_requests(rep, rule='C07-direct-call')
+    rep.rule('C07-call-key', '`R()` on a parameterless rule requests the rule itself (same memo key as `R`)')
+    from .. import routes
+    routes.run(rep, 'C07', ['C07-call-key'])
     from .. import controls
     controls.trampoline_controls(rep)
